@@ -146,7 +146,14 @@ package connlist
 //@ func GetConnectionSetFromP2PConnection
 //@   trusted
 //@   requires c != nil
-//@   modifies *
+//@   modifies common.ConnectionSet.AllowAll { r | fresh(r) }
+//@   modifies common.ConnectionSet.AllowedProtocols { r | fresh(r) }
+//@   modifies common.PortSet.Ports { r | fresh(r) }
+//@   modifies common.PortSet.NamedPorts { r | fresh(r) }
+//@   modifies common.PortSet.ExcludedNamedPorts { r | fresh(r) }
+//@   modifies map[v1.Protocol]*common.PortSet { m | fresh(m) }
+//@   modifies map[string]bool { m | fresh(m) }
+//@   modifies iset { r | fresh(r) }
 //@   ensures [C04] nonnil: res != nil
 
 // ---------------------------------------------------------------------------------------------
